@@ -141,8 +141,8 @@ func (b *nftBackend) restart() {
 	}, true)
 }
 
-func (b *nftBackend) setChain(name string, rules []body) {
-	b.table.UpdateChain(&generictables.Chain{Name: name, Rules: nftRules(rules)})
+func (b *nftBackend) setChain(name string, rules []body, force bool) {
+	b.table.UpdateChain(&generictables.Chain{Name: name, Rules: nftRules(rules), ForceProgramming: force})
 }
 func (b *nftBackend) removeChain(name string)            { b.table.RemoveChainByName(name) }
 func (b *nftBackend) setIns(chain string, rules []body)  { b.table.InsertOrAppendRules(chain, nftRules(rules)) }
